@@ -112,6 +112,8 @@ namespace {
 
    void run(const Hist& h)
    {
+      vf::env::set_alloc(vf::env::Alloc((h.t + int(h.masks.size()) + h.noise) % 4));
+      struct Reset { ~Reset() { vf::env::set_alloc(vf::env::Alloc::Malloc); vf::env::arena_reset(); } } reset;
       World w;
       const ipr::Type& base = *w.T[h.t];
       int uni_all = 0;
@@ -225,6 +227,10 @@ namespace {
    {
       for (int order = 0; order < 6; ++order) {
          if (not opt.mine(order)) continue;
+         for (int personality = 0; personality < 4; ++personality) {
+         // heap-address personality: the (qualifiers, type) table is ordered by the address of the type
+         vf::env::set_alloc(vf::env::Alloc(personality));
+         struct Reset { ~Reset() { vf::env::set_alloc(vf::env::Alloc::Malloc); vf::env::arena_reset(); } } reset;
          World w;
          std::vector<const ipr::Type*> types(w.T.begin(), w.T.end());
          for (int i = 0; i < 6; ++i) types.push_back(&w.lex.get_rvalue_reference(*types[std::size_t(i)]));
@@ -258,6 +264,7 @@ namespace {
          std::set<const void*> distinct(got.begin(), got.end());
          if (distinct.size() != keys.size()) fail("C11:different-sets-same-node", h, "different (qualifiers, type) pairs share a node among " + std::to_string(keys.size()) + " keys");
          rep.count("traces");
+         }
       }
    }
 
